@@ -13,6 +13,21 @@ ASSUME_COMMON = [
 ]
 
 
+def inductive(run, wd, part):
+    """TLC: the invariants are INDUCTIVE under the reference semantics - every call taken from EVERY type-correct
+    state that satisfies them (reachable or not) over a tiny pool leads to a state that satisfies them"""
+    from . import tlc
+    if part == "links":
+        consts = dict(ST.BASE, NV=2, NL=2, Kinds={"D"}, MaxEnds=2, MaxArg=1, DoEmit=False)
+        inv = ["InvLinkSym", "InvNoDupLinks", "InvType"]
+    else:
+        consts = dict(ST.BASE, NV=1, NU=2, NL=0, NLaw=2, Kinds={"D"}, Fams={"uni", "laws"}, InitBV=1, InitBU=2, MaxArg=1, DoEmit=False)
+        inv = ["InvUniSym", "InvNoDupMembers", "InvNoDupUnis", "InvLawsSym", "InvType"]
+    text = tlc.make_cfg(consts, init="IndInit", next_="Next", constraint="Bound", invariants=inv)
+    res = tlc.run_tlc("MC_Ind", text, wd, workers=16, tag=f"inductive-{part}", timeout=1800)
+    run.add_model(f"inductiveness:{part}", res, {"from": "all type-correct states satisfying the invariants", "invariants": inv})
+
+
 def replay_structural(prop, path, wd):
     with open(path) as f:
         rp = json.load(f)
@@ -47,6 +62,7 @@ def c01(tier, seed, wd, replay):
     if replay:
         return replay_structural("C01", replay, wd)
     run = Run("C01", tier, seed)
+    inductive(run, wd, "links")
     run.rule = ("every (state, call, argument aliasing) transition of the bounded EGStructure model is executed on "
                 "fresh real objects; LinkSym and NoDupLinks are evaluated by TLC on the real post-state of every call, "
                 "including calls that raised; a class = call kind x aliasing pattern of its arguments and pre-state; "
@@ -85,6 +101,8 @@ def _generic(prop, tier, seed, wd, replay, rule, quick_cfgs, thorough_cfgs, mand
     if replay:
         return replay_structural(prop, replay, wd)
     run = Run(prop, tier, seed)
+    if prop in ("C02", "C19") and tier == "thorough":
+        inductive(run, wd, "unis")
     run.rule = rule
     nontrivial = set()
     cfgs = quick_cfgs if tier == "quick" else thorough_cfgs
